@@ -504,11 +504,13 @@ def _units(tier):
             if name in QUICK_CORPUS:
                 u.append(('corpus:' + name, 'A', 2))
         return u
-    u = [('M0', 'A', 2), ('M1', 'A', 2), ('M2', 'A', 2), ('M0', 'C', 8), ('M1', 'C', 8), ('M2', 'C', 8), ('M0n', 'B', 40), ('M0', 'B', 5), ('M1', 'B', 4), ('M2', 'B', 3)]
+    # bounded units first (passes A and C on the models and on every vendored corpus file: never time-capped), then the deep searches, which share the time budget
+    u = [('M0', 'A', 2), ('M1', 'A', 2), ('M2', 'A', 2), ('M0', 'C', 8), ('M1', 'C', 8), ('M2', 'C', 8)]
     for name, d in corpus_files(4096):
         u.append(('corpus:' + name, 'A', 2))
     for name, d in corpus_files(4096):
         u.append(('corpus:' + name, 'C', 8))
+    u += [('M0n', 'B', 40), ('M0', 'B', 5), ('M1', 'B', 4), ('M2', 'B', 3)]
     return u
 
 
@@ -557,15 +559,20 @@ def run_c10(tier):
     """Returns aggregate dict + list of violations (history, expected, observed)."""
     t0 = time.time()
     # quick units are bounded by depth, never by time (a loaded machine must not silently skip them); the thorough tier's deep searches are time-capped and say so
-    budget = 3600 if tier == 'quick' else 2400
+    budget = 2400           # thorough tier, pass B only: each deep search gets half of what is left
     agg = dict(states=0, transitions=0, units=[], violations=[])
+    t_deep = None
     for system, pass_, depth in _units(tier):
-        left = budget - (time.time() - t0)
-        if left < 5:
-            agg['units'].append({'system': system, 'pass': pass_, 'skipped': 'time budget exhausted'})
-            continue
-        share = left if not system.startswith('corpus:') else min(left, 40 if tier != 'quick' else left)
-        r = explore_unit(system, pass_, depth, tier, time.time() + share * (1.0 if tier == 'quick' else 0.5 if not system.startswith('corpus:') else 0.6))
+        if tier == 'quick' or pass_ != 'B':
+            deadline = None
+        else:
+            t_deep = t_deep or time.time()
+            left = budget - (time.time() - t_deep)
+            if left < 5:
+                agg['units'].append({'system': system, 'pass': pass_, 'skipped': 'time budget exhausted'})
+                continue
+            deadline = time.time() + left * 0.5
+        r = explore_unit(system, pass_, depth, tier, deadline)
         agg['states'] += r['states']
         agg['transitions'] += r['transitions']
         agg['units'].append({'system': system, 'pass': pass_, 'depth_bound': depth, 'depth_completed': r['depth_completed'], 'saturated': r['saturated'], 'events': r['events'],
